@@ -8,6 +8,9 @@
                            the reader's Encrypt branch, the decrypt attempt with the empty password = property C05's handler);
                            <decres> ::= (dec <doc>) | (dec-err <class>) | (dec-panic): Document::decrypt(PW) on what came back,
                            when that still has an Encrypt entry, else (nodec).  The plain document is for the harness' verdict.
+   (rt-hist <fmt> xFILE) ->  (rt-hist <loadres> <saveres> <loadres> <saveres2> <loadres2>)   the property on a document
+                           OBTAINED BY LOADING: FILE (several cross-reference sections: incremental updates, appended
+                           revisions) is loaded, the loaded document goes through the parts of an rt case
    <saveres> ::= (saved xBYTES <doc-after-save>) | (invalid-mark xBYTES) | (save-panic xBYTES)
    <loadres> ::= (loaded <doc> table|stream) | (err <class>) | (load-panic) | (out) | (unmodelled)
                  | (models-disagree <loadres of Loader.load> <loadres of LoaderExt.load_plain>)
@@ -104,9 +107,9 @@ Definition load_both (b : bytes) : lres * sx :=
 
 Definition fmt_of_xtype (t : xtype) : xref_type := match t with XTTable => XTable | XTStream => XStream end.
 
-Definition run_rt (xt : xref_type) (d : doc) : sx :=
+Definition rt_parts (xt : xref_type) (d : doc) : list sx :=
   let s1 := save xt d in
-  SL (sx_id "rt" :: saveres_to_sx s1 ::
+     (saveres_to_sx s1 ::
       match so_status s1 with
       | SaveOk =>
         let '(l1, x1) := load_both (so_bytes s1) in
@@ -123,6 +126,13 @@ Definition run_rt (xt : xref_type) (d : doc) : sx :=
         end
       | _ => []
       end).
+
+Definition run_rt (xt : xref_type) (d : doc) : sx := SL (sx_id "rt" :: rt_parts xt d).
+
+(* a document obtained by loading: the file, then the save / load / save / load of what came back *)
+Definition run_rt_hist (xt : xref_type) (b : bytes) : sx :=
+  let '(l0, x0) := load_both b in
+  SL (sx_id "rt-hist" :: x0 :: match l0 with LOk d _ => rt_parts xt d | _ => [] end).
 
 (* Document::decrypt(pw) on a loaded document that still has its Encrypt entry; a file lopdf wrote has no Compressed
    entries in its table *)
@@ -156,7 +166,12 @@ Definition run (x : sx) : sx :=
       end
     else sx_id "badcase"
   | SL [t; f; dx] =>
-    if is_id t "save" || is_id t "rt" then
+    if is_id t "rt-hist" then
+      match fmt_of_sx f, as_bytes dx with
+      | Some xt, Some b => run_rt_hist xt b
+      | _, _ => sx_id "badcase"
+      end
+    else if is_id t "save" || is_id t "rt" then
       match fmt_of_sx f, doc_of_sx dx with
       | Some xt, Some d => if is_id t "save" then saveres_to_sx (save xt d) else run_rt xt d
       | _, _ => sx_id "badcase"
